@@ -313,3 +313,37 @@ pub fn c17_insertion_known_gaps() {
     }
     reach!("c17.insertion_gaps.end");
 }
+
+// ---- C17 completion parameter edit, one signature per harness, compared field by field (no string rebuilt)
+fn insertion_fields(text: &str, function_line: usize) -> Option<(usize, usize, bool)> {
+    let db = FixtureDatabase::new();
+    let p = PathBuf::from(PU);
+    let mut s = String::with_capacity(text.len());
+    s.push_str(text);
+    db.file_cache.insert(p.clone(), std::sync::Arc::new(s));
+    let info = db.get_function_param_insertion_info(&p, function_line);
+    let r = info.as_ref().map(|i| (i.line, i.char_pos, i.needs_comma));
+    note!("text={:?} function_line={} -> {:?}", text, function_line, r);
+    std::mem::forget(info); std::mem::forget(db);
+    r
+}
+macro_rules! ins_arm {
+    ($id:ident, $cid:literal, $text:expr, $line:expr, $want:expr) => {
+        #[cfg_attr(kani, kani::proof)]
+        #[cfg_attr(kani, kani::stub(std::path::Path::canonicalize, crate::stubs::canonicalize_err))]
+        #[cfg_attr(kani, kani::stub(core::unicode::unicode_data::white_space::lookup, crate::stubs::uni_white_space))]
+        #[cfg_attr(kani, kani::stub(core::slice::memchr::memchr, crate::stubs::memchr_bytewise))]
+        pub fn $id() {
+            crate::stubs::draw_uni_mask();
+            let got = insertion_fields($text, $line);
+            check!($cid, got == $want);
+            reach!("c17.ins.end");
+        }
+    };
+}
+/// @harness id=c17_ins_no_parameter props=ATTEMPT tier=thorough unwind=40 mem=8 cap=900
+/// get_function_param_insertion_info on `def test_a():` — insert at (1, 11) without comma, i.e. inside the parentheses.
+ins_arm!(c17_ins_no_parameter, "c17.ins.no_parameter", "def test_a():\n    pass\n", 1, Some((1, 11, false)));
+/// @harness id=c17_ins_one_parameter props=ATTEMPT tier=thorough unwind=40 mem=8 cap=900
+/// `def test_a(x):` — insert at (1, 12) with a comma.
+ins_arm!(c17_ins_one_parameter, "c17.ins.one_parameter", "def test_a(x):\n    pass\n", 1, Some((1, 12, true)));
